@@ -41,6 +41,7 @@ def student_source():
     for i, (name, lit) in enumerate(sorted(PY.items())):
         lines.append("def get_%d():\n    return %s" % (i, lit))
     lines.append("def raises():\n    raise ValueError('student failure')")
+    lines.append("def exits():\n    import sys\n    sys.exit(3)")
     for i, (name, body) in enumerate(sorted(SAY.items())):
         lines.append("def say_%d():\n    %s" % (i, body))
     lines.append("def ut(x):\n    if x % 3 == 0:\n        return x\n    if x % 3 == 1:\n        return x + 1\n    raise ValueError('bad')")
@@ -64,6 +65,8 @@ class World:
     def value(self, name, wrap):
         if name == "err":
             return self.S.call("raises")
+        if name == "errx":                      # a student function that ends the interpreter instead of returning
+            return self.S.call("exits")
         if name in EXTRA:
             return EXTRA[name]          # types and patterns are instructor-side values, never proxied
         if wrap == "proxy":
@@ -85,7 +88,7 @@ def run_case(w, rec, wl, wr, kw=None):
         fn = functools.partial(fn, **PRESENTATION[kw])
     if rec["a"] in OUT_FAMILY:
         # the execution is always the result of a real call(); the expected text is an instructor-side string
-        left = w.S.call("raises") if rec["l"] == "err" else w.S.call(SAYER[rec["l"]])
+        left = w.S.call("raises") if rec["l"] == "err" else w.S.call("exits") if rec["l"] == "errx" else w.S.call(SAYER[rec["l"]])
         n0 = len(R.feedback)
         try:
             fb = fn(left, OUT_TEXT[rec["r"]])
@@ -125,7 +128,7 @@ def replay_chunk(cases, extra):
             # one of the wrappings is repeated with a presentation keyword (which one rotates with the cell)
             extra = [(wraps[n % len(wraps)][0], wraps[n % len(wraps)][1], ["explanation", "context", "assertion"][n % 3])]
             for wl, wr, kw in [(a, b, None) for a, b in wraps] + extra:
-                if rec["l"] == "err" and wl == "raw" or (rec["a"] not in UNARY and rec["r"] == "err" and wr == "raw"):
+                if rec["l"] in ("err", "errx") and wl == "raw" or (rec["a"] not in UNARY and rec["r"] in ("err", "errx") and wr == "raw"):
                     continue
                 o = run_case(w, rec, wl, wr, kw)
                 if kw:
